@@ -9,7 +9,8 @@ case kinds (judged by the oracle and compared with the model unless noted):
   basert     DECIMAL(BASE(n,r),r) (budgeted)         baseguard  BASE with radix outside 2..36 / negative number: an error
   roman      ROMAN(n, 0..4) and ARABIC(ROMAN(n)) (budgeted)       complex    IMREAL/IMAGINARY(COMPLEX(a,b))
              (key `fl`: the number is handed over as the equal float, written n.0 in the model's formulas)
-  formula    fixed formula text with the expected value or error, through Parser.parse (budgeted)
+  formula    fixed formula text with the expected value or error, through Parser.parse (budgeted); among them 18 on signed /
+             padded numeric TEXT arguments and seeded HEX2DEC(DEC2HEX("-n")) with n written as text
   hex, base, arabic, misc   model correspondence only (the oracle is silent); misc does not count as non-trivial
 a budgeted call that does not return fails the oracle in every kind (the correspondence-only ones too)
 """
@@ -63,9 +64,15 @@ RULE = ('seeded counts are quick / thorough (one number: both tiers) and are mul
         'ARABIC(ROMAN(n)); the same six calls once more with n handed over as the equal FLOAT (key fl: float(n) in the direct calls, '
         'n.0 in the formulas sent to the model) for every 37th n (1, 38, .., 3997: 109), the 8 fixed 1, 4, 9, 49, 499, 1994, 3888, '
         '3999 and 60 x scale seeded n, duplicates dropped (about 174 numbers at scale 1): same oracle (every form denotes n, ARABIC gives the int n back).  complex: IMREAL/IMAGINARY(COMPLEX(a,b)) on a 9 x 6 grid of ints (0, +-1, .., +-(2^53-1)) and '
-        '400 / 3000 seeded pairs below 10^1..10^14 in magnitude.  formula: 86 fixed formulas with expected value or error '
+        '400 / 3000 seeded pairs below 10^1..10^14 in magnitude.  formula: 104 fixed formulas with expected value or error '
         '(the statement\'s named behaviours, the repaired defects, the range ends of FACT/FACTDOUBLE, far-away digits up '
-        'to 10^15), through Parser.parse.  Correspondence only (oracle silent): hex (HEX2DEC on 400 / 3000 seeded hex '
+        'to 10^15; 18 of them on numbers arriving as signed or padded numeric TEXT, which are the integer they spell: DEC2HEX("-54") = '
+        'FFFFFFFFCA, HEX2DEC(DEC2HEX("-54")) = -54, HEX2DEC(DEC2HEX(" -1 ")) = -1, DEC2HEX("+255") = FF, HEX2DEC(DEC2HEX("-549755813888")) '
+        '= -2^39, ROUND(1234.5,"-2") = 1200, ROUNDUP(1234.5,"-2") = 1300, ROUNDDOWN("1234.5","-2") = 1200, BASE("255","16") = FF, '
+        'DECIMAL(BASE("255",16),"16") = 255, ROMAN("499","0") = CDXCIX, ARABIC(ROMAN("1994")) = 1994, QUOTIENT("-7","2") = -3, MOD("-7","3") '
+        '= 2, FACT("5") = 120, EVEN("-3") = -4, CEILING("-5.5","2") = -4, FLOOR("-5.5","-2") = -4) + 40 x scale seeded '
+        'HEX2DEC(DEC2HEX("x")) = x with x a negative int in -(2^39-1)..-1 written as text in the formula (144 formula cases at scale 1), '
+        'through Parser.parse.  Correspondence only (oracle silent): hex (HEX2DEC on 400 / 3000 seeded hex '
         'texts of 1..11 characters in either case and 17 fixed ones - blank, padded, sign, underscore, 0x/0b prefix, '
         'tab/newline, 40-bit edge values; DEC2HEX(n, places -1..12) 300 / 2000, n half of the 40-bit range, half of 1..39 '
         'bits), base (BASE with places -1..44, fractional n, float or half-integral radix, float places: 200 / 1500 - a '
@@ -169,6 +176,9 @@ ASSUMPTIONS = ['a float argument is judged by the exact value of the double (TRU
                'compared with == (2.0 = 2), logicals rejected',
                'HEX2DEC(DEC2HEX(n)) = n (an int) for -2^39 <= n < 2^39; outside it DEC2HEX must give an error (HEX2DEC of that '
                'is not judged); HEX2DEC of a text of more than 40 bits or with a minus sign must give an error',
+               'a number that arrives as numeric text - with a sign, with blanks around it - is the number it spells for every '
+               'function of this property (DEC2HEX("-54") is DEC2HEX(-54), ROUND(x,"-2") is ROUND(x,-2), digits / radix / form / '
+               'divisor / significance arguments alike); judged on the 18 fixed formulas and the seeded HEX2DEC(DEC2HEX("-n")) only',
                'ARABIC(ROMAN(n, form)) = n is demanded for the classic form 0 only (form omitted); every form 0..4 must denote '
                'n under the additive/subtractive reading (a symbol before a larger one is subtracted) - how concise a form is '
                'is not judged',
